@@ -191,8 +191,8 @@ def _eq64(x, y):
 class PyHarness(Harness):
     W = 136
     max_decisions = 300
-    timeout_ms = 10000
-    prove_timeout_ms = 20000
+    timeout_ms = 30000
+    prove_timeout_ms = 40000
     cut_allowance = 0
     prove_uf_first = True      # equal operands => equal products / quotients by congruence (see symx/solve.py)
     shim_modules = ()
@@ -212,6 +212,8 @@ class PyHarness(Harness):
         self._compiled = None
 
     def inputs(self, mk):
+        if core.ENG is not None:
+            core.ENG.uf_prune = True     # branch conditions of the two executions agree by congruence of * and //
         inp = {}
         for p in self.argnames:
             lo, hi = self.small if p in self.tainted else (pyoracle.MIN64, pyoracle.MAX64)
